@@ -31,8 +31,9 @@ type Row struct {
 }
 
 type Commit struct {
-	Parent int   `json:"parent"` // -1 for the root commit
-	Rows   []Row `json:"rows"`
+	Parent int      `json:"parent"` // -1 for the root commit
+	Rows   []Row    `json:"rows"`
+	Cols1  []string `json:"cols1"` // non-key columns of t1 in this commit (default a,b); t2 is always a,b
 }
 
 type Step struct {
@@ -46,6 +47,7 @@ type Op struct {
 	C    int    `json:"c"`
 	Onto int    `json:"onto"`
 	Plan []Step `json:"plan"`
+	Res  string `json:"res"` // what to do when the operation stops with conflicts: "" (give up) | ours | theirs | abort
 }
 
 type Case struct {
@@ -54,11 +56,14 @@ type Case struct {
 }
 
 type OpObs struct {
-	Kind   string `json:"kind"` // ok | conflict | nochange | err
-	Rows   []Row  `json:"rows"`
-	Msg    string `json:"msg,omitempty"`
-	NewCnt int    `json:"newcnt"`         // commits on HEAD that are not ancestors of the start point (rb: of onto)
-	Dflt   []int  `json:"dflt,omitempty"` // rb: the commits of the default plan, in order
+	Kind     string   `json:"kind"` // ok | conflict | nochange | err
+	Rows     []Row    `json:"rows"`
+	Msg      string   `json:"msg,omitempty"`
+	NewCnt   int      `json:"newcnt"`         // commits on HEAD that are not ancestors of the start point (rb: of onto)
+	Dflt     []int    `json:"dflt,omitempty"` // rb: the commits of the default plan, in order
+	Cols1    []string `json:"cols1"`          // non-key columns of t1 afterwards
+	Restored bool     `json:"restored"`       // after --abort: working / staged / head hashes, branch and status as before the operation
+	Pauses   int      `json:"pauses"`         // how many times the operation stopped with conflicts and was continued
 }
 
 type Obs struct {
@@ -76,14 +81,66 @@ func cellSQL(c *int) string {
 	return strconv.Itoa(*c)
 }
 
-func setContent(s *util.Session, rows []Row) error {
+func cols1Of(s *util.Session) ([]string, error) {
+	r := s.Exec("SELECT * FROM t1 LIMIT 0")
+	if r.Err != "" {
+		return nil, fmt.Errorf("cols: %s", r.Err)
+	}
+	out := []string{}
+	for _, c := range r.Cols {
+		if c != "pk" {
+			out = append(out, c)
+		}
+	}
+	return out, nil
+}
+
+func has(l []string, x string) bool {
+	for _, y := range l {
+		if y == x {
+			return true
+		}
+	}
+	return false
+}
+
+func setContent(s *util.Session, rows []Row, cols1 []string) error {
+	if len(cols1) == 0 {
+		cols1 = []string{"a", "b"}
+	}
+	cur, err := cols1Of(s)
+	if err != nil {
+		return err
+	}
+	for _, c := range cur {
+		if !has(cols1, c) {
+			if err := s.MustExec("ALTER TABLE t1 DROP COLUMN " + c); err != nil {
+				return err
+			}
+		}
+	}
+	for _, c := range cols1 {
+		if !has(cur, c) {
+			if err := s.MustExec("ALTER TABLE t1 ADD COLUMN " + c + " int"); err != nil {
+				return err
+			}
+		}
+	}
 	for t := 1; t <= NTables; t++ {
 		if err := s.MustExec("DELETE FROM " + tname(t)); err != nil {
 			return err
 		}
 	}
 	for _, r := range rows {
-		q := fmt.Sprintf("INSERT INTO %s VALUES (%d,%s,%s)", tname(r.T), r.K, cellSQL(r.Cs[0]), cellSQL(r.Cs[1]))
+		cols := []string{"a", "b"}
+		if r.T == 1 {
+			cols = cols1
+		}
+		vals := []string{strconv.Itoa(r.K)}
+		for i := range cols {
+			vals = append(vals, cellSQL(r.Cs[i]))
+		}
+		q := fmt.Sprintf("INSERT INTO %s (pk,%s) VALUES (%s)", tname(r.T), strings.Join(cols, ","), strings.Join(vals, ","))
 		if err := s.MustExec(q); err != nil {
 			return err
 		}
@@ -105,12 +162,16 @@ func parseCell(v string) *int {
 func readContent(s *util.Session) ([]Row, error) {
 	out := []Row{}
 	for t := 1; t <= NTables; t++ {
-		r := s.Exec("SELECT pk,a,b FROM " + tname(t) + " ORDER BY pk")
+		r := s.Exec("SELECT * FROM " + tname(t) + " ORDER BY pk")
 		if r.Err != "" {
 			return nil, fmt.Errorf("read %s: %s", tname(t), r.Err)
 		}
 		for _, row := range r.Rows {
-			out = append(out, Row{T: t, K: *parseCell(row[0]), Cs: []*int{parseCell(row[1]), parseCell(row[2])}})
+			cs := []*int{}
+			for _, v := range row[1:] {
+				cs = append(cs, parseCell(v))
+			}
+			out = append(out, Row{T: t, K: *parseCell(row[0]), Cs: cs})
 		}
 	}
 	return out, nil
@@ -121,12 +182,48 @@ func str(v string) string { return strings.TrimPrefix(v, "s:") }
 func classify(msg string) string {
 	m := strings.ToLower(msg)
 	switch {
+	case strings.Contains(m, "schema conflict"), strings.Contains(m, "schema"):
+		return "schemaconflict"
 	case strings.Contains(m, "conflict"):
 		return "conflict"
 	case strings.Contains(m, "no changes were made"), strings.Contains(m, "nothing to commit"):
 		return "nochange"
 	}
 	return "err"
+}
+
+func one(s *util.Session, q string) string {
+	r := s.Exec(q)
+	if r.Err != "" || len(r.Rows) == 0 {
+		return "!" + r.Err
+	}
+	return r.Rows[0][0]
+}
+
+// fingerprint of the session's state: working / staged root hashes, head commit, branch, status rows, merge state
+func fingerprint(s *util.Session) string {
+	return strings.Join([]string{
+		one(s, "SELECT dolt_hashof_db('WORKING')"), one(s, "SELECT dolt_hashof_db('STAGED')"), one(s, "SELECT dolt_hashof('HEAD')"),
+		one(s, "SELECT active_branch()"), one(s, "SELECT count(*) FROM dolt_status"),
+		one(s, "SELECT count(*) FROM dolt_merge_status WHERE is_merging"),
+		freshBranchCount(s),
+	}, "|")
+}
+
+// temporary rebase branches as a NEW session sees them (the session's own view can be a stale transaction snapshot)
+func freshBranchCount(s *util.Session) string {
+	f, err := s.E.NewSession()
+	if err != nil {
+		return "!" + err.Error()
+	}
+	return one(f, "SELECT count(*) FROM dolt_branches WHERE name LIKE 'dolt_rebase_%'")
+}
+
+func resolveAll(s *util.Session, how string) {
+	for t := 1; t <= NTables; t++ {
+		s.Exec(fmt.Sprintf("CALL dolt_conflicts_resolve('--%s','%s')", how, tname(t)))
+	}
+	s.Exec("CALL dolt_add('-A')")
 }
 
 func Run(raw json.RawMessage) (any, error) {
@@ -156,7 +253,7 @@ func Run(raw json.RawMessage) (any, error) {
 				return nil, err
 			}
 		}
-		if err := setContent(s, cm.Rows); err != nil {
+		if err := setContent(s, cm.Rows, cm.Cols1); err != nil {
 			return nil, err
 		}
 		r := s.Exec(fmt.Sprintf("CALL dolt_commit('-A','-m','c%d')", i))
@@ -181,6 +278,7 @@ func Run(raw json.RawMessage) (any, error) {
 			return obs, err
 		}
 		base := hashes[start]
+		pre := fingerprint(s)
 		switch op.Kind {
 		case "cp", "rv":
 			proc := "dolt_cherry_pick"
@@ -196,7 +294,29 @@ func Run(raw json.RawMessage) (any, error) {
 			default:
 				o.Kind = "ok"
 			}
-			if o.Kind != "ok" {
+			if o.Kind == "conflict" && op.Res == "abort" {
+				a := s.Exec(fmt.Sprintf("CALL %s('--abort')", proc))
+				if a.Err != "" {
+					o.Kind, o.Msg = "err", "abort: "+a.Err
+				} else {
+					o.Kind = "aborted"
+					o.Restored = fingerprint(s) == pre
+				}
+			} else if o.Kind == "conflict" && (op.Res == "ours" || op.Res == "theirs") {
+				resolveAll(s, op.Res)
+				cr := s.Exec(fmt.Sprintf("CALL %s('--continue')", proc))
+				switch {
+				case cr.Err != "" && (strings.Contains(cr.Err, "no changes") || strings.Contains(cr.Err, "nothing to commit")):
+					o.Kind, o.Msg = "nochange", cr.Err
+				case cr.Err != "":
+					o.Kind, o.Msg = "err", "continue: "+cr.Err
+				case len(cr.Rows) == 1 && len(cr.Rows[0]) >= 4 && (cr.Rows[0][1] != "i:0" || cr.Rows[0][2] != "i:0" || cr.Rows[0][3] != "i:0"):
+					o.Kind, o.Msg = "err", "continue still reports conflicts: "+strings.Join(cr.Rows[0], ",")
+				default:
+					o.Kind, o.Pauses = "resolved", 1
+				}
+			}
+			if o.Kind != "ok" && o.Kind != "resolved" && o.Kind != "aborted" {
 				s.Exec(fmt.Sprintf("CALL %s('--abort')", proc))
 				s.Exec("CALL dolt_reset('--hard')")
 			}
@@ -226,17 +346,38 @@ func Run(raw json.RawMessage) (any, error) {
 					o.Kind, o.Msg = "err", err.Error()
 				}
 			}
-			if o.Kind == "" {
+			for round := 0; o.Kind == "" || (o.Kind == "conflict" && (op.Res == "ours" || op.Res == "theirs") && round <= len(op.Plan)+1); round++ {
+				if o.Kind == "conflict" {
+					resolveAll(s, op.Res)
+					o.Pauses++
+					o.Kind = ""
+				}
 				r = s.Exec("CALL dolt_rebase('--continue')")
 				if r.Err != "" {
 					o.Kind, o.Msg = classify(r.Err), r.Err
 				} else if len(r.Rows) == 1 && r.Rows[0][0] != "i:0" {
 					o.Kind, o.Msg = "err", strings.Join(r.Rows[0], ",")
+				} else if o.Pauses > 0 {
+					o.Kind = "resolved"
 				} else {
 					o.Kind = "ok"
 				}
 			}
-			if o.Kind != "ok" {
+			if o.Kind == "conflict" && op.Res == "abort" {
+				a := s.Exec("CALL dolt_rebase('--abort')")
+				if a.Err != "" {
+					o.Kind, o.Msg = "err", "abort: "+a.Err
+				} else {
+					o.Kind = "aborted"
+					post := fingerprint(s)
+					o.Restored = post == pre
+					if !o.Restored {
+						o.Msg = "pre=" + pre + " post=" + post
+					}
+					base = hashes[start]
+				}
+			}
+			if o.Kind != "ok" && o.Kind != "resolved" && o.Kind != "aborted" {
 				s.Exec("CALL dolt_rebase('--abort')")
 				s.Exec("CALL dolt_reset('--hard')")
 			}
@@ -244,7 +385,7 @@ func Run(raw json.RawMessage) (any, error) {
 			return nil, fmt.Errorf("unknown op %q", op.Kind)
 		}
 		ab := s.Exec("SELECT active_branch()")
-		if o.Kind == "ok" {
+		if o.Kind == "ok" || o.Kind == "resolved" || o.Kind == "aborted" {
 			if len(ab.Rows) != 1 || str(ab.Rows[0][0]) != br {
 				o.Kind, o.Msg = "err", "unexpected active branch after op: "+fmt.Sprint(ab.Rows)
 			}
@@ -253,6 +394,7 @@ func Run(raw json.RawMessage) (any, error) {
 				return nil, err
 			}
 			o.Rows = rows
+			o.Cols1, _ = cols1Of(s)
 			st := s.Exec("SELECT count(*) FROM dolt_status")
 			if st.Err != "" || st.Rows[0][0] != "i:0" {
 				o.Kind, o.Msg = "err", "working set not clean after op: "+st.Err
